@@ -90,6 +90,29 @@ static void sc_error(void) {
 	(void)p_error_get_message(e); (void)p_error_get_message(c); (void)p_error_get_domain(l);
 	if (l && (p_error_get_code(l) != 3 || p_error_get_native_code(l) != 4 || (p_error_get_message(l) && strcmp(p_error_get_message(l), "literal message")))) DAMAGE("source error changed by p_error_copy");
 	if (c && (p_error_get_code(c) != 3 || p_error_get_native_code(c) != 4)) DAMAGE("copied error has wrong codes");
+	/* every setter once more on objects that already hold a message (the old text is released first): afterwards the object
+	 * must answer with no text, the new text or the old text - and the answer must be readable and copyable */
+	{
+		static const char *const fresh[3] = { "replaces the held literal text", "replaces the copied text", "replaces the pointer-created text" };
+		static const char *const old[3] = { "literal message", "literal message", "created through pointer" };
+		PError *obj[3]; int i;
+		obj[0] = l; obj[1] = c; obj[2] = p;
+		for (i = 0; i < 3; i++) {
+			const pchar *m; PError *cp = NULL; const pchar *cm;
+			if (!obj[i]) continue;
+			if (i == 1) p_error_set_message(obj[i], fresh[i]); else p_error_set_error(obj[i], 20 + i, 30 + i, fresh[i]);
+			m = p_error_get_message(obj[i]);
+			if (m && strcmp(m, fresh[i]) && strcmp(m, old[i])) DAMAGE("error object %d answers with a text that is neither the old nor the new one after a setter", i);
+			if (i != 1 && (p_error_get_code(obj[i]) != 20 + i || p_error_get_native_code(obj[i]) != 30 + i)) DAMAGE("p_error_set_error did not store the codes on object %d", i);
+			VA_QUIET(cp = p_error_copy(obj[i]));
+			cm = cp ? p_error_get_message(cp) : NULL;
+			if (cp && ((m == NULL) != (cm == NULL) || (m && strcmp(m, cm)))) DAMAGE("copy of error object %d taken after a (failed) setter differs from it", i);
+			p_error_free(cp);
+			VA_QUIET(p_error_set_error(obj[i], 40 + i, 50 + i, "quiet"));
+			m = p_error_get_message(obj[i]);
+			if (!m || strcmp(m, "quiet")) DAMAGE("error object %d does not take a new text without faults after a (failed) setter", i);
+		}
+	}
 	p_error_clear(l); p_error_set_code(l, 9);
 	p_error_free(e); p_error_free(l); p_error_free(c); p_error_free(p);
 }
@@ -306,6 +329,8 @@ static void sc_thread(void) {
 	if (t2) { if (p_uthread_join(t2) != 42) DAMAGE("exit code lost"); p_uthread_unref(t2); }
 	t3 = p_uthread_create(th_fn, NULL, FALSE, NULL);
 	if (t3) { void *blk = t3; p_uthread_ref(t3); p_uthread_unref(t3); p_uthread_unref(t3); for (i = 0; i < 20000 && va_is_live(blk); i++) usleep(1000); }     /* the detached thread drops the last reference when it exits */
+	/* a creation the system refuses (a stack that cannot be mapped): the call fails, or yields a thread that is joined like any other */
+	{ PUThread *t4 = p_uthread_create_full(th_fn, NULL, TRUE, P_UTHREAD_PRIORITY_INHERIT, (psize)1 << 60, "refused"); if (t4) { (void)p_uthread_join(t4); p_uthread_unref(t4); } }
 	p_uthread_local_free(tkey); tkey = NULL;
 }
 
